@@ -23,6 +23,7 @@ import (
 	"strings"
 	"sync"
 	"sync/atomic"
+	"time"
 
 	"verif/engine/gen"
 	"verif/engine/ref"
@@ -294,11 +295,14 @@ func main() {
 	r := report.New("C11")
 	var cfgs []FamCfg
 	if r.Thorough() {
-		cfgs = []FamCfg{{Budget: 2, Lean: 0}, {Budget: 3, Lean: 2}}
+		cfgs = []FamCfg{{Budget: 2, Lean: 0}, {Budget: 3, Lean: 4}}
 	} else {
 		cfgs = []FamCfg{{Budget: 2, Lean: 1}}
 	}
-	var nBase, nVariants, nValidated, nExcluded int64
+	// internal deadline (a harness bound, never a verdict): the remaining bodies are skipped and the run is
+	// reported as not exhaustive
+	deadline := time.Duration(r.Pick(780, 3300)) * time.Second
+	var nBase, nVariants, nValidated, nExcluded, nSkipped int64
 	distinct := report.NewDistinctSet()
 	nontrivial := report.NewDistinctSet()
 	for _, cfg := range cfgs {
@@ -307,7 +311,7 @@ func main() {
 		// choice vectors first (cheap, in parallel), order them, and distribute the bodies evenly
 		var all [][]int
 		var allMu sync.Mutex
-		gen.ParallelEnumerate(Family(cfg), 8, func(body []gen.Stmt, ch []int) {
+		gen.ParallelEnumerate(Family(cfg), 12, func(body []gen.Stmt, ch []int) {
 			c := append([]int{}, ch...)
 			allMu.Lock()
 			all = append(all, c)
@@ -317,6 +321,10 @@ func main() {
 		n := int64(len(all))
 		fmt.Printf("[%6.1fs] family budget=%d lean=%d: %d bodies enumerated\n", r.Elapsed().Seconds(), cfg.Budget, cfg.Lean, n)
 		report.ParallelFor(len(all), func(idx int) {
+			if r.Elapsed() > deadline {
+				atomic.AddInt64(&nSkipped, 1)
+				return
+			}
 			choices := all[idx]
 			body := gen.Replay(choices, Family(cfg))
 			k := int64(idx)
@@ -369,6 +377,9 @@ func main() {
 		r.Set(fmt.Sprintf("base_programs/budget=%d/lean=%d", cfg.Budget, cfg.Lean), n)
 		fmt.Printf("[%6.1fs] family budget=%d lean=%d: %d base programs\n", r.Elapsed().Seconds(), cfg.Budget, cfg.Lean, n)
 	}
+	if nSkipped > 0 {
+		r.NotExhaustive(fmt.Sprintf("internal deadline of %v reached: %d bodies not explored", deadline, nSkipped))
+	}
 	r.Set("base_programs", nBase)
 	r.Set("excluded_loop_capture", nExcluded)
 	r.Assume("metamorphic oracle: no reference semantics is needed for the verdict; engine/ref is consulted only to word which side deviates")
@@ -384,12 +395,10 @@ func main() {
 	})
 }
 
-// countOnly prints the size of the family for a few configurations (development aid: ./check -count).
-var hist = map[string]int{}
-var histMu sync.Mutex
-
+// countOnly prints the size of the family for a few configurations
+// (development aid: ./check -count, C11_CFGS=budget:lean,... selects them).
 func countOnly() {
-	cfgs := []FamCfg{{2, 2}, {2, 1}, {2, 0}, {3, 3}}
+	cfgs := []FamCfg{{2, 1}, {2, 0}, {3, 4}}
 	if e := os.Getenv("C11_CFGS"); e != "" {
 		cfgs = nil
 		for _, f := range strings.Split(e, ",") {
@@ -400,47 +409,14 @@ func countOnly() {
 	}
 	for _, cfg := range cfgs {
 		var n, nv, ex int64
-		gen.ParallelEnumerate(Family(cfg), 6, func(body []gen.Stmt, ch []int) {
+		gen.ParallelEnumerate(Family(cfg), 12, func(body []gen.Stmt, ch []int) {
 			atomic.AddInt64(&n, 1)
 			if LoopCaptureEscapes(body) {
 				atomic.AddInt64(&ex, 1)
 				return
 			}
 			atomic.AddInt64(&nv, int64(len(Variants(body))))
-			if os.Getenv("C11_HIST") != "" {
-				key := ""
-				for _, st := range body {
-					t := fmt.Sprintf("%T", st)
-					if a, ok := st.(*gen.Assign); ok {
-						if _, isF := a.RHS.(*gen.FuncLit); isF {
-							t = fmt.Sprintf("fdef[%d]", len(a.RHS.(*gen.FuncLit).Body))
-						} else if _, isI := a.LHS.(*gen.Ident); !isI {
-							t = "selassign"
-						} else {
-							t = a.Op
-						}
-					}
-					key += strings.TrimPrefix(t, "*gen.") + " "
-				}
-				histMu.Lock()
-				hist[key]++
-				histMu.Unlock()
-			}
-			if os.Getenv("C11_PRINT") != "" && n%5003 == 1 {
-				fmt.Println(tg.Print(Build(body, Variant{Place: "T0"})).AllText + "\n")
-			}
 		})
-		if len(hist) > 0 {
-			var ks []string
-			for k := range hist {
-				ks = append(ks, k)
-			}
-			sort.Slice(ks, func(i, j int) bool { return hist[ks[i]] > hist[ks[j]] })
-			for _, k := range ks {
-				fmt.Printf("%8d %s\n", hist[k], k)
-			}
-			hist = map[string]int{}
-		}
 		fmt.Printf("budget=%d lean=%d: %d programs, %d excluded, %d variants\n", cfg.Budget, cfg.Lean, n, ex, nv)
 	}
 }
